@@ -238,16 +238,52 @@ Proof.
   - intros c Hc. specialize (H2 c Hc). rewrite !andb_true_iff in H2. tauto.
 Qed.
 
-Lemma m_init_chunks p v : chunks p <> [] -> (v = false \/ m_validate p = true) -> m_init p v = Ok p.
+(* N1: a column whose missing rows hold nothing is left alone by _drop_hidden_elements *)
+Lemma masked_sum_norm : forall (sv : list bool) ds,
+  forallb2 (fun (s : bool) d => s || (d =? 0)) sv ds = true ->
+  sum (map2 (fun (s : bool) d => if s then 0 else d) sv ds) = 0.
+Proof.
+  induction sv as [|s sv IH]; intros [|d ds] H; cbn [forallb2] in H; try discriminate; try reflexivity.
+  apply andb_true_iff in H as [H1 H]. rewrite map2_cons. cbn [sum]. rewrite (IH ds H).
+  destruct s; [reflexivity|]. cbn [orb] in H1. apply Nat.eqb_eq in H1. subst d. reflexivity.
+Qed.
+
+Lemma norm_hidden_count c : norm_missing_b c = true -> hidden_count c = 0.
+Proof.
+  unfold norm_missing_b, hidden_count. intros H. destruct (sfields c) as [|f0 t]; [reflexivity|].
+  cbn [forallb] in H. apply andb_true_iff in H as [H _]. apply masked_sum_norm, H.
+Qed.
+
+Lemma flat_map_singleton {A} (f : A -> list A) : forall l, (forall x, In x l -> f x = [x]) -> flat_map f l = l.
+Proof.
+  induction l as [|x l IH]; intros H; [reflexivity|]. cbn [flat_map].
+  rewrite (H x (or_introl eq_refl)), IH; [reflexivity|]. intros y Hy. apply H. right. exact Hy.
+Qed.
+
+Lemma drop_hidden_id p : norm_missing_all_b p = true -> m_drop_hidden p = p.
+Proof.
+  intros H. unfold m_drop_hidden. destruct p as [sch cs]. cbn [ctype chunks] in *. f_equal.
+  unfold norm_missing_all_b in H. cbn [chunks] in H. rewrite forallb_forall in H.
+  apply flat_map_singleton. intros c Hc. unfold renorm_chunk.
+  rewrite (norm_hidden_count c (H c Hc)). reflexivity.
+Qed.
+
+(* the validating constructor keeps a column it accepts AS IT IS only when its missing rows hold nothing
+   (after the repair "a missing row holds nothing"; before, m_validate alone was enough) *)
+Lemma m_init_chunks p v : chunks p <> [] -> (v = false \/ (m_validate p = true /\ norm_missing_all_b p = true)) ->
+  m_init p v = Ok p.
 Proof.
   intros Hne H. unfold m_init. destruct (chunks p) eqn:E; [congruence|].
-  destruct v; [|reflexivity]. destruct H as [H|H]; [discriminate|]. rewrite H. reflexivity.
+  destruct v; [|reflexivity]. destruct H as [H|[H N]]; [discriminate|]. rewrite H, (drop_hidden_id p N). reflexivity.
 Qed.
 
 Lemma inv_wf p : inv_b p = true -> wf_b p = true.
 Proof. intros H. apply inv_b_spec in H. tauto. Qed.
 
 Lemma inv_chunks p : inv_b p = true -> chunks p <> [].
+Proof. intros H. apply inv_b_spec in H. tauto. Qed.
+
+Lemma inv_norm p : inv_b p = true -> norm_missing_all_b p = true.
 Proof. intros H. apply inv_b_spec in H. tauto. Qed.
 
 Lemma inv_validate p : inv_b p = true -> m_validate p = true.
@@ -461,6 +497,14 @@ Proof.
   unfold la_of_lists. cbn [offs]. rewrite diffs_cumsum, forallb2_map_r. exact H.
 Qed.
 
+(* an encoded column whose missing rows hold nothing is left alone by _drop_hidden_elements *)
+Lemma drop_hidden_encode sch d : length sch = length (snd d) -> dec_norm_b d = true ->
+  m_drop_hidden (encode sch d) = encode sch d.
+Proof.
+  intros Hk Hn. apply drop_hidden_id. rewrite encode_unfold. unfold norm_missing_all_b. cbn [chunks forallb].
+  rewrite (encode_norm_missing sch d Hk Hn). reflexivity.
+Qed.
+
 Lemma encode_inv sch d : nodupb (map fst sch) = true -> dec_inv_b (length sch) d = true ->
   inv_b (encode sch d) = true.
 Proof.
@@ -482,6 +526,7 @@ Print Assumptions rows_of_dec.
 Print Assumptions m_rows_dec.
 Print Assumptions lcol_of_dec_rows.
 Print Assumptions m_init_chunks.
+Print Assumptions drop_hidden_id.
 Print Assumptions inv_validate.
 Print Assumptions inv_chunks.
 Print Assumptions inv_wf.
